@@ -26,7 +26,11 @@ func execStress(c *vc.Case, sc *Scenario) (run *Run, err error) {
 	}
 	run = NewRun(sc, c.R.Uint64())
 	run.Stress = true
-	_, err = run.Exec()
+	var stuck []string
+	stuck, err = run.Exec()
+	if len(stuck) > 0 {
+		c.Inconclusive(fmt.Sprintf("stress run: %d caller(s) still blocked after the 30 s wall-clock watchdog (released): %v", len(stuck), stuck))
+	}
 	return
 }
 
